@@ -78,12 +78,30 @@ contract trusted targetHash
   ensures result == thash(baseof(lbls), url)
   modifies elemsof(lbls)
 
-contract trusted labelsWithoutConfigParam
+// ---------- C02: what is shipped to the sidecar is the final label set, except job-level params ----------
+// "config params removed from shipped labels; invalid label names prefixed and restored by a labelmap rule in the generated job":
+// every shipped label is one of the final labels with its value (name unchanged, or carrying the prefix the generated job
+// strips again); a final label is left out only if it is a __param_ label (those equal to the job's own param)
+// the job itself sets this url param to this very value (so the generated job sets it again and the label can be left out)
+pred jobSetsSameParam(l, param) = hasprefix(l.Name, "__param_") && (trimprefix(l.Name, "__param_") in param) && len(param[trimprefix(l.Name, "__param_")]) > 0
+      && param[trimprefix(l.Name, "__param_")][0] == l.Value
+pred shippedFrom(r, l) = r.Value == l.Value && (r.Name == l.Name || r.Name == strconcat("__invalid_label_", l.Name))
+contract labelsWithoutConfigParam
   ensures fresh(result)
+  ensures[C02] @every_shipped_label_is_a_final_label forall j in 0..len(result) :: exists i in 0..len(lbls) :: shippedFrom(result[j], lbls[i])
+  ensures[C02] @only_param_labels_are_left_out forall i in 0..len(lbls) :: (!hasprefix(lbls[i].Name, "__param_") ==> exists j in 0..len(result) :: result[j].Name == lbls[i].Name && result[j].Value == lbls[i].Value)
+  ensures[C02] @a_label_is_left_out_only_if_the_job_sets_the_same_param forall i in 0..len(lbls) :: (jobSetsSameParam(lbls[i], param) || exists j in 0..len(result) :: shippedFrom(result[j], lbls[i]))
   modifies nothing
-contract trusted supportInvalidLabelName
+  loop 1 invariant fresh(newlbls)
+  loop 1 invariant forall j in 0..len(newlbls) :: exists i in 0..idx1 :: shippedFrom(newlbls[j], lbls[i])
+  loop 1 invariant forall i in 0..idx1 :: (!hasprefix(lbls[i].Name, "__param_") ==> exists j in 0..len(newlbls) :: newlbls[j].Name == lbls[i].Name && newlbls[j].Value == lbls[i].Value)
+  loop 1 invariant[C02] @a_label_is_left_out_only_if_the_job_sets_the_same_param forall i in 0..idx1 :: (jobSetsSameParam(lbls[i], param) || exists j in 0..len(newlbls) :: shippedFrom(newlbls[j], lbls[i]))
+
+contract supportInvalidLabelName
   ensures fresh(result)
+  ensures[C02] @labels_shipped_one_to_one len(result) == len(lbls) && (forall i in 0..len(lbls) :: shippedFrom(result[i], lbls[i]))
   modifies nothing
+  loop 1 invariant fresh(res) && len(res) == idx1 && (forall i in 0..idx1 :: shippedFrom(res[i], lbls[i]))
 
 contract targetsFromGroup
   requires tg != nil && cfg != nil
